@@ -94,7 +94,9 @@ them: a write `w` that was issued after `w'` **and** completed after `w'` is the
 takes writes in issue order, the backing store in completion order, so only a write that is later in
 both respects is later in both places).  `readOkOrd` is `readOk` with `follows` replaced by
 `supersedes` (which `follows` implies): a read may return the value of a write that no write
-completed before the read was issued supersedes.  Judged for write-through stores. -/
+completed before the read was issued supersedes.  Proved for write-through stores
+(`read_after_write_ordered_all_interleavings`); false of write-back stores in one known way, which gets its own
+signature (`wbOvertaken`, `read_after_write_ordered_writeback_false`). -/
 
 /-- `w` is the later write of the two: issued after `w'` and completed after `w'` -/
 def supersedes (w w' : WRec) : Bool :=
@@ -108,13 +110,24 @@ def readOkOrd (ws : List WRec) (key : Key) (rs re : Nat) (v : Option Nat) : Bool
   let initialOk := v.isNone && before.isEmpty
   initialOk || mine.any fun w' => w'.val == v && w'.s < re && !(before.any fun w => supersedes w w')
 
+/-- write-back stores, the one known way to violate the ordered clause (fixes/C16-writeback-overtaken-by-delete.known.md):
+    the read found nothing, a delete `d` and a put `w` of the key both completed before it, `w` supersedes `d`
+    and was issued while `d` was still in flight, and between the issue of `w` and the completion of `d` the key
+    was observed *not dirty* — the put's value had left the dirty set (written back by an eviction, an
+    invalidation or a flush) before the backing-store delete landed on top of it -/
+def wbOvertaken (ws : List WRec) (evs : List Obs) (key : Key) (rs : Nat) : Bool :=
+  let mine := ws.filter (·.key == key)
+  let before := mine.filter fun w => match w.e with | some e => e < rs | none => false
+  before.any fun d => d.val.isNone && before.any fun w =>
+    w.val.isSome && supersedes w d &&
+      (match d.e with
+       | some de => w.s < de && (List.range de).any fun t =>
+           w.s ≤ t && !((evs.getD t ⟨0, [], [], [], none⟩).dirty.contains key)
+       | none => false)
+
 def judgeReadsOrd (cfg : Cfg) (ops : List (Nat × OpK)) (evs : List Obs) : Option String :=
   let ws := writesOf ops evs
   let m := if cfg.wt then "wt" else "wb"
-  -- write-through only: in write-back mode a `put` completes without reaching the backing store, and
-  -- an eviction's synchronous write-back can be overtaken by a delete that was issued earlier and is
-  -- still in flight (fixes/C16-writeback-overtaken-by-delete.known.md); there only `readOk` is judged
-  if !cfg.wt then none else
   ops.findSome? fun (i, op) =>
     match op, firstIdx evs i, endIdx evs i with
     | .get k, some rs, some re =>
@@ -122,7 +135,10 @@ def judgeReadsOrd (cfg : Cfg) (ops : List (Nat × OpK)) (evs : List Obs) : Optio
       | some (.val v) =>
         if readOkOrd ws k rs re (some v) then none else some s!"store/read-after-write/superseded/{m}/value"
       | some .none =>
-        if readOkOrd ws k rs re none then none else some s!"store/read-after-write/superseded/{m}/absent"
+        if readOkOrd ws k rs re none then none
+        else if !cfg.wt && wbOvertaken ws evs k rs then
+          some "store/read-after-write/superseded/wb/writeback-overtaken-by-earlier-delete"
+        else some s!"store/read-after-write/superseded/{m}/absent"
       | _ => none
     | _, _, _ => none
 
